@@ -263,6 +263,13 @@ def gen(tier, rng):
         for encn in ("utf-8", "latin-1", "gbk", "utf-16"):
             for target in ("path", "fileobj"):
                 yield {"op": "file", "doc": doc, "enc": encn, "target": target}
+        for encn in ("utf-8", "UTF-8", "utf8"):
+            yield {"op": "file", "doc": doc, "enc": encn, "target": "path", "bom": True}
+    # shipped middlewares - also of the very classes the default stacks consist of - in the "addition" positions: the
+    # default stack still runs completely, before (parse) resp. after (write) them
+    for doc in range(len(DOCS)):
+        for which in range(len(SHIPPED)):
+            yield {"op": "shipped", "doc": doc, "which": which}
 
 
 def _stack_wire(st):
@@ -284,7 +291,7 @@ def request(case):
         else:
             start = _split_blocks(text)
         return rq("parsestack", B.enc_blocks(start), [], _stack_wire(case["ps"]), _stack_wire(case["am"]))
-    if case["op"] == "libmw":
+    if case["op"] in ("libmw", "shipped"):
         return None
     if case["op"] == "write":
         start = bibtexparser.parse_string(text).blocks
@@ -309,6 +316,65 @@ def _mk(st, ct="list"):
 
 class _Capture(Exception):
     pass
+
+
+SHIPPED = ["add_enclosing_quote", "add_enclosing_reuse", "remove_enclosing", "resolve_strings", "month_int", "normalize_keys"]
+
+
+def _shipped(which):
+    import bibtexparser.middlewares as m
+    name = SHIPPED[which]
+    if name == "add_enclosing_quote":
+        return m.AddEnclosingMiddleware(reuse_previous_enclosing=False, enclose_integers=True, default_enclosing='"')
+    if name == "add_enclosing_reuse":
+        return m.AddEnclosingMiddleware(reuse_previous_enclosing=True, enclose_integers=False, default_enclosing="{")
+    if name == "remove_enclosing":
+        return m.RemoveEnclosingMiddleware()
+    if name == "resolve_strings":
+        return m.ResolveStringReferencesMiddleware()
+    if name == "month_int":
+        return m.MonthIntMiddleware()
+    return m.NormalizeFieldKeys()
+
+
+def _shipped_check(case):
+    """append_middleware / prepend_middleware holding a shipped middleware: parse_string = default parse, then it;
+    write_string = it, then the complete default write stack, then the writer - computed here by hand"""
+    import warnings
+    import bibtexparser
+    from bibtexparser import writer
+    from bibtexparser.middlewares.parsestack import default_parse_stack, default_unparse_stack
+    from bibtexparser.splitter import Splitter
+    text, which = DOCS[case["doc"]], case["which"]
+    with warnings.catch_warnings():
+        warnings.simplefilter("ignore")
+        got = bibtexparser.parse_string(text, append_middleware=[_shipped(which)])
+        want = Splitter(text).split()
+        for mw in default_parse_stack(allow_inplace_modification=True):
+            want = mw.transform(want)
+        want = _shipped(which).transform(want)
+        a, b = enc(B.enc_blocks(got.blocks, prev=False)), enc(B.enc_blocks(want.blocks, prev=False))
+        if a != b:
+            return "parse_string(append_middleware=[%s]) differs from default parse followed by that middleware" % SHIPPED[which]
+        if SHIPPED[which] in ("remove_enclosing", "resolve_strings", "month_int"):
+            return None      # not meaningful in front of the default write stack (values are already unenclosed etc.)
+        lib = bibtexparser.parse_string(text)
+        try:
+            out = bibtexparser.write_string(lib, prepend_middleware=[_shipped(which)])
+        except Exception as e:  # noqa
+            out = "raise " + type(e).__name__
+        lib2 = bibtexparser.parse_string(text)
+        try:
+            lib2 = _shipped(which).transform(lib2)
+            for mw in default_unparse_stack(allow_inplace_modification=False):
+                lib2 = mw.transform(lib2)
+            want_text = writer.write(lib2)
+        except Exception as e:  # noqa
+            want_text = "raise " + type(e).__name__
+        if out != want_text:
+            return "write_string(prepend_middleware=[%s]) gives %r, the middleware followed by the default write stack gives %r" % (
+                SHIPPED[which], out[:120], want_text[:120])
+    return None
 
 
 def _libmw_check(case):
@@ -355,6 +421,11 @@ def impl(case):
         if f:
             raise AssertionError(f)
         return "(ok libmw)"
+    if case["op"] == "shipped":
+        f = _shipped_check(case)
+        if f:
+            raise AssertionError(f)
+        return "(ok shipped)"
     text = DOCS[case["doc"]]
     if case["op"] == "parse":
         ct = case.get("ct", "list")
@@ -404,6 +475,10 @@ def _file_case(case):
     import tempfile
     import bibtexparser
     text = DOCS[case["doc"]] + "\n@a{u, t = {éü}}\n" + ("@a{z, t = {中}}" if case["enc"] in ("gbk", "utf-8", "utf-16") else "")
+    if case.get("bom"):
+        # the decoded content starts with U+FEFF (a UTF-8 file written with a byte-order mark, read as "utf-8"):
+        # parse_file must see exactly what open(path, encoding=...).read() returns
+        text = "\ufeff" + text
     encn = case["enc"]
     d = tempfile.mkdtemp(prefix="c20_")
     try:
@@ -461,6 +536,8 @@ def oracle(case):
         return None
     if case["op"] == "libmw":
         return _libmw_check(case)
+    if case["op"] == "shipped":
+        return _shipped_check(case)
     text = DOCS[case["doc"]]
     if case["op"] == "parse":
         ps, am = case["ps"], case["am"]
@@ -531,7 +608,7 @@ def describe(cases, outs):
 
 
 def nontrivial(case, out):
-    return bool(case.get("ps") or case.get("am") or case.get("us") or case.get("pm")) or case["op"] in ("file", "libmw")
+    return bool(case.get("ps") or case.get("am") or case.get("us") or case.get("pm")) or case["op"] in ("file", "libmw", "shipped")
 
 
 PY_ONLY_MAY_RAISE = False
